@@ -1201,6 +1201,43 @@ pub fn check_update(case: &UpdateCase) -> CaseResult {
                 }
             }
         }
+        // the same through the other access paths: every predicate bound (predicate index), and for each triple the
+        // statement names, subject + object bound (subject index + re-filter)
+        let mut probes: Vec<(String, Vec<String>, Vec<LexRow>)> = Vec::new();
+        for pi in 0u8..3 {
+            let p = q_pred(pi);
+            probes.push((
+                format!("SELECT ?s ?o WHERE {{ ?s {} ?o }}", p.sparql()),
+                vec!["s".into(), "o".into()],
+                model.iter().filter(|t| t.1 == p).map(|t| vec![Some(t.0.lex()), Some(t.2.lex())]).collect(),
+            ));
+        }
+        let (Update::InsertData(ts) | Update::DeleteData(ts)) = u;
+        for t in ts {
+            // constants with a language tag / other datatype and blank nodes cannot be written faithfully in a pattern here
+            if annotation_dropped(&t.2) != t.2 || matches!(t.0, T::Blank(_)) || matches!(t.2, T::Blank(_)) {
+                continue;
+            }
+            probes.push((
+                format!("SELECT ?p WHERE {{ {} ?p {} }}", t.0.sparql(), t.2.sparql()),
+                vec!["p".into()],
+                model.iter().filter(|m| m.0 == t.0 && m.2 == t.2).map(|m| vec![Some(m.1.lex())]).collect(),
+            ));
+        }
+        for (q, cols, want) in probes {
+            match exec(&db, case.via_session, &q)? {
+                Err(e) => return fail("c13/update/select-err", format!("{q} after `{text}`: {e}")),
+                Ok(res) => {
+                    let got = match engine_rows(&res, &cols, true, false) {
+                        Ok(g) => g,
+                        Err(e) => return fail("c13/update/select-columns", format!("{q}: {e}")),
+                    };
+                    if multiset(&got) != multiset(&want) {
+                        return fail("c13/update/bound-pattern-mismatch", format!("{q} after `{text}`: engine {} expected {}", show_rows(&got), show_rows(&want)));
+                    }
+                }
+            }
+        }
     }
     let class = format!("updates-{}{}", case.updates.len().min(3), if has_annot { "+annotated-literal" } else { "" });
     ok(changed, class, key)
